@@ -169,4 +169,12 @@ def _adjust_modulus_offset(
             results.append(res)
             prog.increment()
 
-    return sorted(results, key=lambda _: _[0])
+    # Results may arrive in any order when multiple processes are used. Ties
+    # (e.g., identical pseudo chi-squared values for noise-free data) are
+    # broken using the order in which the options were submitted so that the
+    # outcome does not depend on the order in which processes finish.
+    order: Dict[Tuple[str, str, str], int] = {
+        (a[6], a[7], a[8]): i for i, a in enumerate(args)
+    }
+
+    return sorted(results, key=lambda _: (_[0], order[(_[2], _[3], _[4])]))
